@@ -288,6 +288,40 @@ pub fn codec_step(w: &mut World, case: &CodecCase) {
                 Out::Panic(p) => w.violate("C04", "panic", bk, "decode-claims", "", p),
             }
         }
+        CodecCase::FailingEncode { footer, filler } => {
+            w.stats.bump("op:codec:failing-encode");
+            w.stats.distinct.insert(format!("failing-encode|{footer}"));
+            match backend::failing_encode(*footer, *filler) {
+                Out::Ok(n) => w.stats.add("fault:encode-failed-after-partial-output-bytes", n as u64),
+                Out::Err(e) => w.violate("C14", "json-wrapper-not-transparent", bk, "encode-json", "", format!("{e:?}")),
+                Out::Panic(p) => w.violate("C04", "panic", bk, "encode-json", "", p),
+            }
+        }
+        CodecCase::Flatten { claims, extra } => {
+            w.stats.bump("op:codec:flatten");
+            let empty = serde_json::Map::new();
+            let extra = extra.as_object().unwrap_or(&empty);
+            match backend::flatten_roundtrip(claims, extra) {
+                Out::Ok((wire, reg, custom, again)) => {
+                    w.log.update(&wire);
+                    if reg != *claims {
+                        w.violate("C14", "roundtrip-mismatch", bk, "decode-claims", "flatten", format!("flattened RegisteredClaims read back as {reg:?}, sealed {claims:?}"));
+                    }
+                    if custom != *extra {
+                        w.violate("C14", "roundtrip-mismatch", bk, "decode-claims", "flatten", format!("the application's own members read back as {} but were {}", truncate(&serde_json::Value::Object(custom).to_string(), 120), truncate(&serde_json::Value::Object(extra.clone()).to_string(), 120)));
+                    }
+                    if again != wire {
+                        w.violate("C14", "roundtrip-mismatch", bk, "encode-claims", "flatten", format!("encoding the decoded value again gives {} instead of {}", truncate(&String::from_utf8_lossy(&again), 120), truncate(&String::from_utf8_lossy(&wire), 120)));
+                    }
+                    match serde_json::from_slice::<serde_json::Value>(&wire) {
+                        Ok(v) if v.is_object() => {}
+                        _ => w.violate("C14", "wire-not-json", bk, "encode-claims", "flatten", truncate(&String::from_utf8_lossy(&wire), 120)),
+                    }
+                }
+                Out::Err(e) => w.violate("C14", "own-encoding-rejected", bk, "decode-claims", "flatten", format!("{e:?}")),
+                Out::Panic(p) => w.violate("C04", "panic", bk, "decode-claims", "flatten", p),
+            }
+        }
         CodecCase::JsonTransparent { value } => {
             w.stats.bump("op:codec:json-transparent");
             w.stats.distinct.insert(format!("json-transparent|{}", match value { serde_json::Value::Object(_) => "object", serde_json::Value::Array(_) => "array", serde_json::Value::String(_) => "string", serde_json::Value::Null => "null", _ => "scalar" }));
